@@ -185,6 +185,10 @@ def keyword_texts():
                         break
 
 
+QUALIFIED_TEXTS = ["a/ns.b eq 1", "a/ns.1 eq 1", "a/ns.1x/c eq 1", "a/ns.true eq 1", "a/ns.False/b eq 1", "a/ns.null eq 1", "a/n1.n2.b/c eq 1", "ns.a/x.2/any(v: v eq 1)",
+                   "xs/any(x: x/m.n eq 1)", "a/ns.b/any()", "contains(a/b.1, 'x')", "a/ns.b eq a/b", "(a/ns.not) eq 1", "a/ns.in in (a/ns.in,)", "ns.1/b eq 1", "a/n.any/any(x: x)"]
+
+
 def _kw_unit(texts):
     acc = Acc()
     for text in texts:
@@ -205,9 +209,10 @@ def run(ctx):
     leaves = compound_leaves()
     ctx.pmap(_leaf_unit, [leaves[i::16] for i in range(16)])
     ctx.layer("compound_leaves", leaves=len(leaves), contexts=8, exhaustive=True)
-    kw = sorted(set(keyword_texts()))
+    kw = sorted(set(keyword_texts()) | set(QUALIFIED_TEXTS))
     ctx.pmap(_kw_unit, [kw[i::16] for i in range(16)])
     ctx.layer("keyword-named-identifiers", names=3 * len(KEYWORDS), templates=len(KW_TEMPLATES), texts=len(kw), exhaustive=True,
+              qualified_path_segments=len(QUALIFIED_TEXTS),
               note="identifiers, path segments, lambda variables, namespaces and parameter names spelled like an operator keyword, in every "
                    "position where the renderer emits a blank before or after them; texts the parser rejects are outside the quantifier")
     # history layer: one shared renderer/parser, serially, all leaves and all k<=1 trees forward then reverse
